@@ -15,4 +15,6 @@ rm -f "$V/coq/Extract.vo" "$V/coq/Extract.glob" "$V/coq/Extract.vok" "$V/coq/Ext
 cp "$V/extract/driver.ml" .
 ocamlfind ocamlopt -w -a -O3 catmodel_ext.mli catmodel_ext.ml driver.ml -o catmodel 2>/dev/null || \
 ocamlfind ocamlopt -w -a catmodel_ext.mli catmodel_ext.ml driver.ml -o catmodel
+# Print Assumptions outputs of the statement files, cached by source hash (see check: proof_part)
+"$V/check" --fill-pa-cache
 echo "setup done: $(ls -la catmodel | awk '{print $5}') bytes catmodel"
